@@ -381,8 +381,9 @@ func (a *EpochBitmapAllocator) MarshalJSON() ([]byte, error) {
 	a.mu.RLock()
 	defer a.mu.RUnlock()
 
-	ones, bits := a.mask.Size()
-	baseNetwork := fmt.Sprintf("%s/%d", a.baseIP.String(), ones+(bits-a.prefixLength))
+	// The pool is baseIP/ones; prefixLength (what is allocated) is serialised separately.
+	ones, _ := a.mask.Size()
+	baseNetwork := fmt.Sprintf("%s/%d", a.baseIP.String(), ones)
 
 	state := EpochBitmapState{
 		BaseNetwork:    baseNetwork,
